@@ -62,7 +62,28 @@ func c04Fold(n string) string { return strings.ToLower(c04Full(n)) }
 func c04Gen(r *kit.Rand, idx int) c04Case {
 	c := c04Case{Index: idx}
 	var live []string // names we believe exist (refreshed from the server while running)
-	pick := func() string { return kit.Pick(r, c04Names) + kit.Pick(r, c04Tags) }
+	pick := func() string {
+		if len(live) > 0 && r.Chance(1, 4) {
+			// another spelling (letter case) of a name used earlier in this history - typically of the newest one: the
+			// server must find the existing model whichever operation created it
+			n := live[len(live)-1]
+			if r.Chance(1, 2) {
+				n = kit.Pick(r, live)
+			}
+			switch r.Intn(4) {
+			case 0:
+				return strings.ToUpper(n)
+			case 1:
+				return strings.ToLower(n)
+			case 2:
+				return strings.ToUpper(n[:1]) + n[1:]
+			default:
+				i := strings.LastIndexAny(n, "/:") + 1
+				return n[:i] + strings.ToUpper(n[i:])
+			}
+		}
+		return kit.Pick(r, c04Names) + kit.Pick(r, c04Tags)
+	}
 	n := r.Range(6, 14)
 	for i := 0; i < n; i++ {
 		var op c04Op
